@@ -17,9 +17,9 @@ namespace ShootVerif.Rest
 /-- a key as the directive grammar writes it: non-empty, letters/digits/`_`/`-`/`|` -/
 def CleanKey (k : List Char) : Prop := k ≠ [] ∧ ∀ c ∈ k, isKeyChar c = true
 
-/-- a value: starts with a word character, has no `}` and no newline -/
+/-- a value: non-empty, does not start with a blank (leading punctuation is fine), has no `}` and no newline -/
 def CleanVal (v : List Char) : Prop :=
-  (∃ a as, v = a :: as ∧ isWord a = true) ∧ (∀ c ∈ v, c ≠ '}') ∧ (∀ c ∈ v, c ≠ '\n')
+  (∃ a as, v = a :: as ∧ isReSpace a = false) ∧ (∀ c ∈ v, c ≠ '}') ∧ (∀ c ∈ v, c ≠ '\n')
 
 def renderKV (kv : List Char × List Char) : List Char := '{' :: (kv.1 ++ ':' :: (kv.2 ++ ['}']))
 
@@ -52,19 +52,20 @@ theorem matchKV_render (k v rest : List Char) (hk : CleanKey k) (hv : CleanVal v
     takeWhile_append_stop k ':' _ hk.2 hcolon
   have h2 : (k ++ ':' :: ((a :: as) ++ '}' :: rest)).dropWhile isKeyChar = ':' :: ((a :: as) ++ '}' :: rest) :=
     dropWhile_append_stop k ':' _ hk.2 hcolon
-  have hw : isWord ':' = false := by decide
-  have h3 : (':' :: ((a :: as) ++ '}' :: rest)).takeWhile (fun c => !isWord c) = [':'] := by
-    simp [List.takeWhile_cons, hw, ha]
-  have h4 : (':' :: ((a :: as) ++ '}' :: rest)).dropWhile (fun c => !isWord c) = (a :: as) ++ '}' :: rest := by
-    simp [List.dropWhile_cons, hw, ha]
+  have hw : isReSpace ':' = false := by decide
+  have h2' : (':' :: ((a :: as) ++ '}' :: rest)).dropWhile isReSpace = ':' :: ((a :: as) ++ '}' :: rest) := by
+    simp [List.dropWhile_cons, hw]
+  have h3 : ((a :: as) ++ '}' :: rest).takeWhile isReSpace = [] := by
+    simp [List.takeWhile_cons, ha]
+  have h4 : ((a :: as) ++ '}' :: rest).dropWhile isReSpace = (a :: as) ++ '}' :: rest := by
+    simp [List.dropWhile_cons, ha]
   have hkne : k.isEmpty = false := by
     cases k with
     | nil => exact absurd rfl hk.1
     | cons x xs => rfl
   unfold matchKV
-  simp only [h1, h2, h3, h4, hkne, Bool.false_eq_true, ↓reduceIte, List.reverse_cons, List.reverse_nil, List.nil_append]
-  have h5 : kvColons [':'] [] ((a :: as) ++ '}' :: rest) = some (a :: as, rest) := by
-    simp only [kvColons, beq_self_eq_true, ↓reduceIte, List.reverse_nil]
+  simp only [h1, h2, h2', h3, h4, hkne, Bool.false_eq_true, ↓reduceIte, List.reverse_nil]
+  have h5 : kvAfterColon [] [] ((a :: as) ++ '}' :: rest) = some (a :: as, rest) := by
     unfold kvAfterColon
     simp only [List.nil_append]
     rw [kvValueAt_clean (a :: as) rest (by simp) hbr]
